@@ -15,6 +15,7 @@ Line protocol of the C15 model (ordered-map spec + sstable block model).
 * `merge <sum|void> <keys/vals> …` — k-way merge, spec and model, with ordinal tables.
 * `index <hex file> <ords>` — the block-address store of a real file decoded by the model:
   `ord:start:end,…|block ids located for the ordinals` (`empty` for a ≤ 1-block file).
+* `bitpack <values> <widths>` — bytes `BitPacker::write`* + `flush` produce for the fields.
 * `shorter <left> <right>`, `pfxup <prefix>`, `lev <d> <query> <key>`, `cpl <a> <b>`, `lt <a> <b>`.
 -/
 namespace TantivyModel.Driver.C15
@@ -107,7 +108,7 @@ def streamDigest (r : Option (List (Nat × Key × Nat))) : String :=
 
 def searchAnswer {σ} (A : Automaton σ) (m : Assoc Nat) (d : Dict Nat) (lo hi : Bound) : String :=
   let spec := specItems m (fun k => matchLo lo k && matchHi hi k && A.accepts k)
-  s!"{digest spec}~{digest (d.search A lo hi)}"
+  s!"{digest spec}~{digest (d.search A lo hi)}~{digest (d.searchDelta A lo hi)}"
 
 /-- one operation on spec `m` and block model `d` -/
 def answer (tables : Array (Table × Nat)) (m : Assoc Nat) (d : Dict Nat) (op : String) : String :=
@@ -147,6 +148,16 @@ def answer (tables : Array (Table × Nat)) (m : Assoc Nat) (d : Dict Nat) (op : 
       let sh := fun (r : List Key × Bool) => s!"{showKeys r.1}/{showBool r.2}"
       s!"{sh (sortedOrdsSpec m os)}~{sh (d.sortedOrdsToTerm os)}"
     | none => "bad-op"
+  | ["tbo", lo, hi] =>
+    match parseBound lo, parseBound hi with
+    | some lo, some hi =>
+      let sh := fun (b : OrdBound) => match b with
+        | .unbounded => "u"
+        | .incl o => if o = U64_MAX then "imax" else s!"i{o}"
+        | .excl o => if o = U64_MAX then "emax" else s!"e{o}"
+      let r := d.termBoundsToOrd lo hi
+      s!"-~{sh r.1},{sh r.2}"
+    | _, _ => "bad-op"
   | ["blk", k] =>
     match bytesOfHex k with
     | some k => match (d.locateKey k).bind d.blockAt with
@@ -224,12 +235,11 @@ def handle : List String → String
     if kind != "void" && kind != "u64" && kind != "range" then "bad-op" else
     match bytesOfHex h with
     | some bs =>
-      match readBlocks bs.length bs with
+      let f := openFile bs
+      match readBlocks f.data.length f.data with
       | none => "truncated"
       | some blocks =>
-        let n := bs.length
-        let foot := bs.drop (n - Gen.SSTABLE_FOOTER_LEN)
-        s!"{if blocks.isEmpty then "_" else ";".intercalate (blocks.map (showRaw kind))}|n={u64le (foot.drop 8)},v={u32le (foot.drop 16)}"
+        s!"{if blocks.isEmpty then "_" else ";".intercalate (blocks.map (showRaw kind))}|n={f.numTerms},v={f.version}"
     | none => "bad-op"
   | ["encode", bl, ks] =>
     match bl.toNat?, keyList ks with
@@ -263,16 +273,18 @@ def handle : List String → String
   | ["index", h, os] =>
     match bytesOfHex h, valList os with
     | some bs, some os =>
-      let n := bs.length
-      let foot := bs.drop (n - Gen.SSTABLE_FOOTER_LEN)
-      let indexOffset := u64le foot
-      let indexBytes := (bs.take (n - Gen.SSTABLE_FOOTER_LEN)).drop indexOffset
+      let indexBytes := (openFile bs).index
       let fstLen := u64le (indexBytes.drop (indexBytes.length - 8))
       if fstLen = 0 then "empty"
       else
-        let store := openStore ((indexBytes.take (indexBytes.length - 8)).drop fstLen)
+        let storeRegion := (indexBytes.take (indexBytes.length - 8)).drop fstLen
+        let store := openStore storeRegion
         let addrs := store.all
-        s!"{",".intercalate (addrs.map (fun a => s!"{a.firstOrd}:{a.start}:{a.stop}"))}|{showNats (os.map store.locateOrd)}"
+        s!"{",".intercalate (addrs.map (fun a => s!"{a.firstOrd}:{a.start}:{a.stop}"))}|{showNats (os.map store.locateOrd)}|reenc={showBool (store.reencodeOk && reencodeStoreOk storeRegion)}"
+    | _, _ => "bad-op"
+  | ["bitpack", vs, ws] =>
+    match valList vs, valList ws with
+    | some vs, some ws => if vs.length = ws.length then hexOfBytes (bitPack (vs.zip ws)) else "bad-op"
     | _, _ => "bad-op"
   | ["shorter", l, r] =>
     match bytesOfHex l, bytesOfHex r with
